@@ -269,6 +269,10 @@ def symcall(f, *a, **k):
         ts = type(selfobj)
         if ts is str:
             if name == "join":
+                if isinstance(a[0], SymStr):
+                    if selfobj == "":
+                        return a[0]  # ''.join(s) of a string is the string itself
+                    raise EngineUnsupported("separator.join(symbolic string)")
                 items = list(a[0])
                 if any(isinstance(x, SymStr) for x in items):
                     if selfobj == "\n":
